@@ -186,6 +186,9 @@ Section BzProofs.
       (snd (dec S consumed) = true -> consumed + fst (dec S consumed) = len S) /\
       (snd (dec S consumed) = false -> fst (dec S consumed) = BUF).
 
+  Lemma dec_ok_no_err S consumed : dec_ok S -> 0 <= consumed <= len S -> dec_err (dec S consumed) = false.
+  Proof. intros [_ H] Hc. destruct (H consumed Hc) as ((H0 & _) & _). unfold dec_err. apply Z.ltb_ge. exact H0. Qed.
+
   Lemma bz_load_win rd st pos :
     dec_ok (rd_bytes rd) -> bz_win rd st -> b_send st = false ->
     let st' := fst (bz_load dec (rd_bytes rd) st pos) in
@@ -208,15 +211,15 @@ Section BzProofs.
 
   Lemma bz_seek_loop_spec rd :
     dec_ok (rd_bytes rd) ->
-    forall fuel st off,
+    forall c fuel st off,
       bz_win rd st ->
       (b_send st = true \/ len (rd_bytes rd) - (b_base st + b_end st) < Z.of_nat fuel) ->
-      exists st', bz_seek_loop dec fuel (rd_bytes rd) st off = Some st' /\
+      exists st', bz_seek_loop dec c (rd_size rd) fuel (rd_bytes rd) st off = Some (st', false) /\
         bz_win rd st' /\ b_pos st' = b_pos st /\ r_fpos st' = r_fpos st /\ r_open st' = r_open st /\
         (off <= b_base st' + b_end st' \/ b_send st' = true) /\
         (st' = st \/ b_base st' < off).
   Proof.
-    intros Hdec. induction fuel as [|fuel IH]; intros st off Hw Hf.
+    intros Hdec c. induction fuel as [|fuel IH]; intros st off Hw Hf.
     - cbn. destruct (b_base st + b_end st <? off) eqn:E.
       + destruct Hf as [Hs|Hf].
         * rewrite Hs. same_state st.
@@ -226,6 +229,7 @@ Section BzProofs.
       + destruct (b_send st) eqn:Hs.
         * same_state st.
         * apply Z.ltb_lt in E.
+          rewrite (dec_ok_no_err _ _ Hdec) by (destruct Hw as (? & ? & ? & _); lia).
           pose proof (bz_load_win rd st (b_pos st) Hdec Hw Hs) as (Hw' & Hp' & Hb' & Hfp' & Ho' & _ & Hse' & Hfull).
           set (st1 := fst (bz_load dec (rd_bytes rd) st (b_pos st))) in *.
           destruct (IH st1 off Hw') as (st2 & Hl & Hw2 & Hp2 & Hf2 & Ho2 & Hex & Hmono).
@@ -272,7 +276,7 @@ Section BzProofs.
           apply andb_false_iff in Ef. destruct Hback as [Hb|[Hb|Hb]]; [|exact Hb|congruence].
           rewrite Hb in Ef. destruct Ef as [Ef|Ef]; [discriminate|]. apply Z.ltb_ge in Ef. exact Ef. }
       destruct Hw0 as (Hw0 & Hb0 & Ho0).
-      destruct (bz_seek_loop_spec rd Hdec (bz_fuel (rd_bytes rd)) st0 off Hw0) as (st1 & Hl & Hw1 & _ & _ & Ho1 & Hex & Hmono).
+      destruct (bz_seek_loop_spec rd Hdec c (bz_fuel (rd_bytes rd)) st0 off Hw0) as (st1 & Hl & Hw1 & _ & _ & Ho1 & Hex & Hmono).
       { right. destruct Hw0 as (? & ? & ? & _). unfold bz_fuel, len. lia. }
       fold off st0. rewrite Hl.
       assert (Hb1 : b_base st1 <= off) by (destruct Hmono as [->|?]; lia).
